@@ -1421,9 +1421,9 @@ func c06Generate() {
 
 	// ---- 5. documents x targets x entry points ----
 	g := &jgen{maxDepth: 3, forDecode: true}
-	nT := 260
+	nT := 1300
 	if thorough {
-		nT = 3000
+		nT = 12000
 	}
 	var types []*sx
 	for _, s := range c06FixedTypes {
@@ -1493,9 +1493,9 @@ func c06Generate() {
 	}
 
 	// ---- 6. syntax-only entry points ----
-	nS := 1500
+	nS := 8000
 	if thorough {
-		nS = 20000
+		nS = 80000
 	}
 	for i := 0; i < nS; i++ {
 		var d []byte
@@ -1674,9 +1674,9 @@ func (g *gGen) leaves() {
 }
 
 func c06Graphs(thorough bool) {
-	reps := 1
+	reps := 3
 	if thorough {
-		reps = 8
+		reps = 20
 	}
 	mode := func() int { return rndn(16) }
 	prefixLens := []int{0, 1, 2, 5, 997, 998, 999, 1000, 1001, 1003}
